@@ -40,5 +40,25 @@ pub fn run() -> Vec<String> {
             ck(&format!("parse malformed {bad:?}"), matches!(parse(bad), Parsed::Malformed(_)));
         }
     }
+    {
+        use crate::model::cal::*;
+        ck("1970-01-01 is day 0", days_from_civil(1970, 1, 1) == 0);
+        ck("1970-01-01 Thursday", fields(0, 0, 0).weekday == 4);
+        ck("2000-02-29 Tuesday", fields(instant(2000, 2, 29, 0, 0, 0, 0), 0, 0).weekday == 2);
+        ck("2000-03-01 instant", instant(2000, 3, 1, 0, 0, 0, 0) == 951868800);
+        ck("2038 rollover", fields(2147483648, 0, 0) == Fields { year: 2038, month: 1, day: 19, hour: 3, minute: 14, second: 8, nanos: 0, weekday: 2, day_of_year: 18 });
+        ck("0001-01-01", instant(1, 1, 1, 0, 0, 0, 0) == -62135596800 && fields(-62135596800, 0, 0).weekday == 1);
+        ck("9999-12-31", instant(9999, 12, 31, 23, 59, 59, 0) == 253402300799 && fields(253402300799, 0, 0).day_of_year == 364);
+        ck("1900 not leap, 2000 leap", !is_leap(1900) && is_leap(2000) && !is_leap(2100) && is_leap(2024));
+        ck("2023-05-28 is a Sunday, day 147", { let f = fields(instant(2023, 5, 28, 0, 0, 0, 0), 0, 0); f.weekday == 0 && f.day_of_year == 147 });
+        for z in [-800000i64, -1, 0, 1, 59, 60, 365, 366, 11016, 2932896] {
+            let (y, m, d) = civil_from_days(z);
+            ck(&format!("civil round trip {z}"), days_from_civil(y, m, d) == z);
+        }
+        ck("offset moves the date", { let f = fields(instant(2024, 1, 1, 0, 30, 0, 0), 0, -3600); (f.year, f.month, f.day, f.hour, f.day_of_year) == (2023, 12, 31, 23, 364) });
+        ck("rfc3339 write", rfc3339(0, 500_000_000, 3600, 3, true) == "1970-01-01T01:00:00.500+01:00" && rfc3339(0, 0, 0, 0, true) == "1970-01-01T00:00:00Z");
+        ck("rfc3339 read", parse_rfc3339("1996-12-19T16:39:57-08:00") == Some((851042397, 0, -28800)) && parse_rfc3339("1985-04-12T23:20:50.52Z") == Some((482196050, 520_000_000, 0)));
+        ck("rfc3339 read rejects", parse_rfc3339("1985-04-12T23:20:50").is_none() && parse_rfc3339("1985-02-30T00:00:00Z").is_none());
+    }
     errs
 }
